@@ -106,6 +106,8 @@ func overlayGen(r *rand.Rand, n int, tier string, emit func(Case)) {
 			mk = 1
 		case 2:
 			mk = 2
+		case 3:
+			mk = 3 // power-of-two scale far from 1: same exact degeneracies, magnitude 1e-12 .. 1e9
 		}
 		if i%10 == 9 {
 			// laws on large lattices (ordinates up to 2^10): overlapping geometries of every type
